@@ -470,3 +470,61 @@ spec:
 }
 } // verus!
 } // mod recipe
+
+pub mod qadd {
+use vstd::prelude::*;
+use std::sync::Arc;
+use crate::*;
+use crate::quantity::*;
+verus! {
+/*@ type src/convert/mod.rs PhysicalQuantity
+derive Debug, Clone, Copy, PartialEq, Eq, Structural
+@*/
+/*@ type src/convert/mod.rs System
+derive Debug, Clone, Copy, PartialEq, Eq, Structural
+@*/
+// TRUSTED stand-ins: the name lists of a unit (Vec<Arc<str>>) and the converter are opaque here; `find_unit` is an assumed stub
+// whose result is an uninterpreted function of the converter and the key (it is a pure lookup)
+#[verifier::external_body] pub struct StrList { _p: () }
+#[verifier::external_body] pub struct Converter { _p: () }
+/*@ type src/convert/mod.rs Unit
+derive
+rewrite `    pub names: Vec<Arc<str>>,` => `    pub names: StrList,`
+rewrite `    pub symbols: Vec<Arc<str>>,` => `    pub symbols: StrList,`
+rewrite `    pub aliases: Vec<Arc<str>>,` => `    pub aliases: StrList,`
+@*/
+pub uninterp spec fn unit_of(c: &Converter, key: Seq<char>) -> Option<Arc<Unit>>;
+impl Converter {
+/*@ fn src/convert/mod.rs Converter::find_unit stub
+ret r
+spec:
+        ensures r == unit_of(self, unit@)
+@*/
+}
+/*@ type src/quantity.rs IncompatibleUnits
+derive
+@*/
+impl<V> Quantity<V> {
+/*@ fn src/quantity.rs Quantity::compatible_unit
+tags C10 C03
+ret r
+spec:
+        ensures
+            // [C10] the unit two quantities are added in is the unit of the FIRST one (the second is converted to it); quantities
+            //       of different physical quantities, or one with and one without unit, are never added
+            match (self.unit, rhs.unit) {
+                (None, None) => r == Ok::<Option<Arc<Unit>>, IncompatibleUnits>(None),
+                (None, Some(_)) => r is Err && r->Err_0 is MissingUnit && r->Err_0->lhs == false,
+                (Some(_), None) => r is Err && r->Err_0 is MissingUnit && r->Err_0->lhs == true,
+                (Some(a), Some(b)) => match (unit_of(converter, a@), unit_of(converter, b@)) {
+                    (Some(ua), Some(ub)) => if ua.physical_quantity != ub.physical_quantity { r is Err && r->Err_0 is DifferentPhysicalQuantities }
+                                            else { r == Ok::<Option<Arc<Unit>>, IncompatibleUnits>(Some(ua)) },
+                    // (unknown units: added only when the two unit texts are equal; String comparison has no Verus specification, so which
+                    //  of the two outcomes applies is not decided here)
+                    _ => (r is Err && r->Err_0 is UnknownDifferentUnits) || r == Ok::<Option<Arc<Unit>>, IncompatibleUnits>(None),
+                },
+            },
+@*/
+}
+} // verus!
+} // mod qadd
